@@ -168,7 +168,11 @@ func (e *specEnv) eval(x Expr, hint types.Type) sv {
 	case *ENil:
 		return sv{isNil: true}
 	case *EIdent:
-		return sv{Val: e.lookup(n.Name)}
+		v := e.lookup(n.Name)
+		if v.lit != nil {
+			return sv{lit: v.lit}
+		}
+		return sv{Val: v}
 	case *EUnary:
 		switch n.Op {
 		case "!":
@@ -371,7 +375,7 @@ func (e *specEnv) binary(n *EBinary, hint types.Type) sv {
 		return sv{Val: Val{t: eq, typ: tBool}}
 	}
 	if isString(ty) && n.Op == "+" {
-		return sv{Val: Val{t: "(str_concat " + at + " " + bt + ")", typ: ty}}
+		return sv{Val: Val{t: u.strConcat(at, bt), typ: ty}}
 	}
 	sfail("operator %s not supported on %s", n.Op, ty)
 	return sv{}
@@ -403,8 +407,21 @@ func (e *specEnv) quant(n *EQuant) sv {
 		}
 		return sv{Val: Val{t: fmt.Sprintf("(%s ((%s %s)) %s)", kw, name, srt, body), typ: tBool}}
 	}
-	lo := e.term(e.eval(n.Lo, tInt), tInt)
-	hi := e.term(e.eval(n.Hi, tInt), tInt)
+	loV, hiV := e.eval(n.Lo, tInt), e.eval(n.Hi, tInt)
+	if loV.lit != nil && hiV.lit != nil && new(big.Int).Sub(hiV.lit, loV.lit).Cmp(big.NewInt(64)) <= 0 {
+		// constant bounds: expand
+		var parts []string
+		for k := new(big.Int).Set(loV.lit); k.Cmp(hiV.lit) < 0; k = new(big.Int).Add(k, big.NewInt(1)) {
+			inner := e.with(n.Var, Val{typ: tInt, lit: new(big.Int).Set(k)})
+			parts = append(parts, inner.term(inner.eval(n.Body, tBool), tBool))
+		}
+		if n.Forall {
+			return sv{Val: Val{t: "(and true " + strings.Join(parts, " ") + ")", typ: tBool}}
+		}
+		return sv{Val: Val{t: "(or false " + strings.Join(parts, " ") + ")", typ: tBool}}
+	}
+	lo := e.term(loV, tInt)
+	hi := e.term(hiV, tInt)
 	u.nfresh++
 	name := q(fmt.Sprintf("q!%s!%d", n.Var, u.nfresh))
 	inner := e.with(n.Var, Val{t: name, typ: tInt})
